@@ -719,7 +719,11 @@ fn check(args: &[String]) -> i32 {
     let t0 = Instant::now();
     // stall monitor: a worker whose progress file (rewritten before every run) has not changed for
     // STALL_S seconds is stuck inside one run: kill it now instead of waiting for the deadline
-    let stall_s = std::env::var("CACHESIM_STALL_S").ok().and_then(|s| s.parse::<u64>().ok()).unwrap_or(30);
+    // (the longest legitimate run, a 2^16-entry configuration of the thorough tier, takes seconds)
+    let stall_s = std::env::var("CACHESIM_STALL_S").ok().and_then(|s| s.parse::<u64>().ok()).unwrap_or(match tier {
+        Tier::Quick => 45,
+        Tier::Thorough => 240,
+    });
     let mut stalled: BTreeSet<u64> = BTreeSet::new();
     {
         let mut last: Vec<(String, Instant)> = children.iter().map(|_| (String::new(), Instant::now())).collect();
@@ -894,7 +898,9 @@ fn check(args: &[String]) -> i32 {
             v
         };
         let path = write_replay(&replay_dir, &prop, v);
-        let (outc, _) = run_replay_child(&path);
+        // (a replay is given longer than the stall monitor gave the run, so that "slow" is never
+        // confirmed as "does not terminate")
+        let (outc, _) = run_replay_child_limit(&path, stall_s + 15);
         match outc {
             ReplayOutcome::Reproduced | ReplayOutcome::Crashed => {
                 let mut r = v.clone();
@@ -908,6 +914,12 @@ fn check(args: &[String]) -> i32 {
                     // violation that does not replay is never reported
                     unconfirmed_uncontrolled += 1;
                     println!("INFO violation {} seen in an uncontrolled-hasher run did not replay in a fresh process; not reported", fp);
+                    let _ = std::fs::remove_file(&path);
+                } else if v["oracle"].as_str() == Some("process_hang") && matches!(outc, ReplayOutcome::NotReproduced) {
+                    // the run the stall monitor gave up on completes (without any violation) when
+                    // replayed: it was slow, not stuck. Not a violation; the rest of that worker's
+                    // slice was not executed, which the run count of the evidence shows.
+                    println!("NOTE run {} was abandoned by the stall monitor but completes when replayed: slow, not a violation", v["orig_run_index"]);
                     let _ = std::fs::remove_file(&path);
                 } else {
                     unconfirmed += 1;
